@@ -25,6 +25,8 @@ func init() {
 	wrap("C17", extra9C17)
 	wrap("C19", extra9C19)
 	wrap("C10", extra9C10)
+	wrap("C13", func(c *Ctx) { extra9Names(c, "C13-R10") })
+	wrap("C08", func(c *Ctx) { extra9Names(c, "C08-R16") })
 	wrap("C07", extra9C07b)
 	wrap("C07", extra9C07c)
 	registry["C07"].Pkgs = append(registry["C07"].Pkgs, "model/models/llama", "model/models/mistral3", "model/models/mllama", "model/models/gemma2", "model/models/gemma3")
@@ -684,3 +686,79 @@ func extra9C07c(c *Ctx) {
 	}
 	c.Expect(rule, "model packages with a Shift and a Forward that apply RoPE", nPk, 4)
 }
+
+// ---------------------------------------------------------------------------------- C08 / C13 (one string, one name)
+
+func extra9Names(c *Ctx, rule string) {
+	c.Rule(rule, "a name string has one reading: names.Parse stores each part at most once — a store to a part inside the scanning loop lies on the edge of a test that finds a flag false which the same branch then sets (so the second separator of that kind ends the parse as invalid) — keeping only one of two tags makes h/n/m:a:b and h/n/m:a the same name: the blob cache links both to one file and the other name parser rejects the string")
+	var f *core.Func
+	for _, fn := range c.P.FuncsOf(namesPkgRel(c)) {
+		if fn.Name == "Parse" {
+			f = fn
+		}
+	}
+	if f == nil {
+		c.Undecided(rule, "anchor:func:names.Parse", "-", "anchor lost")
+		return
+	}
+	info := f.Info()
+	g := c.G(f)
+	var loops []ast.Node
+	ast.Inspect(f.Body, func(nd ast.Node) bool {
+		switch nd.(type) {
+		case *ast.ForStmt, *ast.RangeStmt:
+			loops = append(loops, nd)
+		}
+		return true
+	})
+	n := 0
+	for _, st := range g.Find(func(nd ast.Node) bool {
+		as, ok := nd.(*ast.AssignStmt)
+		if !ok || len(as.Lhs) != 1 {
+			return false
+		}
+		se, isSel := ast.Unparen(as.Lhs[0]).(*ast.SelectorExpr)
+		return isSel && core.FieldVar(info, se) != nil && core.ObjNameOfType(info.TypeOf(se.X)) == strings.ReplaceAll(namesPkgRel(c), "/", "/")+".Name"
+	}) {
+		as := st.Node.(*ast.AssignStmt)
+		inLoop := false
+		for _, lp := range loops {
+			if within(lp, as) {
+				inLoop = true
+			}
+		}
+		if !inLoop {
+			continue
+		}
+		// is another iteration possible after this store? (a `continue` follows in the same clause)
+		again := false
+		for _, br := range g.Find(func(nd ast.Node) bool { b, ok := nd.(*ast.BranchStmt); return ok && b.Tok == token.CONTINUE }) {
+			if g.Dominates(st.Loc, br.Loc) {
+				again = true
+			}
+		}
+		if !again {
+			continue
+		}
+		n++
+		guarded := false
+		for _, a := range g.AtomsAt(st.Loc) {
+			id, isId := ast.Unparen(a.Expr).(*ast.Ident)
+			if !isId || a.Val {
+				continue
+			}
+			flag := info.Uses[id]
+			for _, set := range g.AssignsTo(flag) {
+				if sa, isA := set.Node.(*ast.AssignStmt); isA && len(sa.Rhs) == 1 {
+					if tv, has := info.Types[sa.Rhs[0]]; has && tv.Value != nil && tv.Value.String() == "true" && (g.Dominates(st.Loc, set.Loc) || g.Dominates(set.Loc, st.Loc)) {
+						guarded = true
+					}
+				}
+			}
+		}
+		c.Check(rule, f.Key()+" store:"+core.ExprString(as.Lhs[0])+" at most once", c.Pos(as), guarded, "the part is stored on every iteration that sees its separator: a second separator overwrites the first part silently")
+	}
+	c.Expect(rule, "parts stored inside the scanning loop of names.Parse (with another iteration to follow)", n, 1)
+}
+
+func namesPkgRel(c *Ctx) string { return "server/internal/internal/names" }
